@@ -4,7 +4,7 @@
    EVERY per-column serializer ser (value serialization itself is C01/C02), every column-name list, every
    routing-index list and every protocol version. *)
 From Coq Require Import ZArith List Bool.
-From Verif Require Import CompositeSpec Bind C30_proofs.
+From Verif Require Import CompositeSpec Bind BindHistory C30_proofs C30_hist_proofs.
 Import ListNotations.
 Local Open Scope Z_scope.
 
@@ -108,6 +108,53 @@ Proof.
   - intros. apply derive_indexes_server. assumption.
 Qed.
 Print Assumptions C30_from_message_indexes.
+
+(* ---- histories on ONE BoundStatement (bind is public API on an existing statement): Model/BindHistory.v ----
+   After ANY history of bind / read-routing_key operations (failed binds included), a successful bind followed by
+   any number of reads: the next read reports the routing key of THIS binding, never an earlier one. *)
+Theorem C30_rebind_routing_key : forall V ser names pk_idx pv (h : list (bop V)) inp ws n,
+  bind V ser names pk_idx pv inp = inr ws ->
+  let st := step V ser names pk_idx pv in
+  let s0 := fst (run_with V st (init None) h) in
+  let s1 := fst (st s0 (OBind inp)) in
+  let s2 := fst (run_with V st s1 (repeat ORead n)) in
+  snd (st s2 ORead) = ObsRead (routing_key pk_idx ws) ws.
+Proof. exact rebind_routing_key. Qed.
+Print Assumptions C30_rebind_routing_key.
+
+(* ... hence, with C30_routing_key: Cassandra's encoding of the partition key of the row addressed NOW *)
+Theorem C30_rebind_composite : forall V ser names pk_idx pv (h : list (bop V)) vs ws n bs,
+  bind V ser names pk_idx pv (InList vs) = inr ws -> pk_idx <> [] ->
+  Forall2 (pk_component V ser vs) pk_idx bs -> forallb component_ok bs = true \/ length pk_idx = 1%nat ->
+  let st := step V ser names pk_idx pv in
+  let s2 := fst (run_with V st (fst (st (fst (run_with V st (init None) h)) (OBind (InList vs)))) (repeat ORead n)) in
+  snd (st s2 ORead) = ObsRead (RkBytes (composite_spec bs)) ws.
+Proof.
+  intros V ser names pk_idx pv h vs ws n bs Hb Hne Hf Hok. cbn zeta.
+  rewrite (rebind_routing_key V ser names pk_idx pv h (InList vs) ws n Hb).
+  rewrite (routing_key_of_bind V ser names pk_idx pv vs ws bs Hb Hne Hf Hok). reflexivity.
+Qed.
+Print Assumptions C30_rebind_composite.
+
+(* a routing_key passed to the constructor is reported as given, before and after every bind (API behaviour; the
+   statement of C30 makes no demand on a key the application chose itself) *)
+Theorem C30_explicit_key_kept : forall V ser names pk_idx pv (ops : list (bop V)) k, pk_idx <> [] ->
+  let s := fst (run_with V (step V ser names pk_idx pv) (init (Some k)) ops) in
+  st_explicit s = Some k /\ snd (read_key pk_idx s) = RkBytes k.
+Proof. exact explicit_kept. Qed.
+Print Assumptions C30_explicit_key_kept.
+
+(* the code before the fix kept the derived key across bind(): bind [1,'a']; read; bind [2,'b']; read -> key of row 1 *)
+Theorem C30_stale_cache_refuted :
+  c30_hist_stale [1; 2] [TInt32; TText] [0%nat] None 4 None
+    [OBind (InList [BVal (CInt 1); BVal (CStr [97])]); ORead; OBind (InList [BVal (CInt 2); BVal (CStr [98])]); ORead]
+  = [ObsBind None [WBytes [0; 0; 0; 1]; WBytes [97]]; ObsRead (RkBytes [0; 0; 0; 1]) [WBytes [0; 0; 0; 1]; WBytes [97]];
+     ObsBind None [WBytes [0; 0; 0; 2]; WBytes [98]]; ObsRead (RkBytes [0; 0; 0; 1]) [WBytes [0; 0; 0; 2]; WBytes [98]]]
+  /\ nth 3 (c30_hist [1; 2] [TInt32; TText] [0%nat] None 4 None
+    [OBind (InList [BVal (CInt 1); BVal (CStr [97])]); ORead; OBind (InList [BVal (CInt 2); BVal (CStr [98])]); ORead]) (ObsBind None [])
+  = ObsRead (RkBytes [0; 0; 0; 2]) [WBytes [0; 0; 0; 2]; WBytes [98]].
+Proof. vm_compute. split; reflexivity. Qed.
+Print Assumptions C30_stale_cache_refuted.
 
 (* non-vacuity: a 3-column statement (int, text, blob), composite partition key (blob, int) from table metadata,
    bound by name on v4 with the text column missing *)
